@@ -795,6 +795,8 @@ class CircuitTemplate(AbstractBaseTemplate):
             for key, value in node_values.items():
                 *node_id, op, var = key.split("/")
                 target_nodes = self.get_nodes(node_id)
+                if not target_nodes:
+                    warn(PyRatesWarning(f'Node value {key} was not applied: node {"/".join(node_id)} was not found.'))
                 for i, n in enumerate(target_nodes):
                     if n not in values:
                         values[n] = dict()
